@@ -15,6 +15,7 @@ type Files struct {
 	Companion string         // <Name>_fn.go, no build tag ("" if empty)
 	Imported  string         // function declarations for the batch's imported-functions package
 	LineK     map[int]int    // source line of a task's function expression -> k
+	PredLineK map[int]int    // source line of a flow task's cff.Predicate( call -> k of the gated task
 	ExpName   map[int]string // k -> expected TaskInfo.Name
 	DirName   string         // expected directive name ("" if not instrumented)
 	NeedsCur  bool           // uses the process-global current H (execs must be 1)
@@ -34,6 +35,7 @@ type emitter struct {
 	comp    strings.Builder
 	imp     strings.Builder
 	lineK   map[int]int
+	predLK  map[int]int // line (within body) of a cff.Predicate( call -> k
 	expName map[int]string
 	needCur bool
 	usesRv  bool
@@ -418,7 +420,7 @@ var (
 // Emit produces the source files of program p for batch package pkg;
 // fnsPkg is the import path of the batch's imported-functions package.
 func Emit(p *ps.Program, pkg, fnsPkg string) *Files {
-	e := &emitter{p: p, pkg: pkg, fnsPkg: fnsPkg, tyAlias: "ty", lineK: map[int]int{}, expName: map[int]string{}}
+	e := &emitter{p: p, pkg: pkg, fnsPkg: fnsPkg, tyAlias: "ty", lineK: map[int]int{}, predLK: map[int]int{}, expName: map[int]string{}}
 	if p.TyAlias {
 		e.tyAlias = "tyy"
 	}
@@ -622,6 +624,10 @@ func Emit(p *ps.Program, pkg, fnsPkg string) *Files {
 	for l, k := range e.lineK {
 		lineK[l+shift] = k
 	}
+	predLineK := map[int]int{}
+	for l, k := range e.predLK {
+		predLineK[l+shift] = k
+	}
 	// Names inferred by -auto-instrument: "<file>.<line>".
 	if p.Kind == "flow" && p.AutoInstr && p.InstrDir {
 		for l, k := range lineK {
@@ -660,6 +666,7 @@ func Emit(p *ps.Program, pkg, fnsPkg string) *Files {
 		Companion: ch.String(),
 		Imported:  e.imp.String(),
 		LineK:     lineK,
+		PredLineK: predLineK,
 		ExpName:   e.expName,
 		DirName:   dirName,
 		NeedsCur:  e.needCur,
@@ -701,7 +708,11 @@ func (e *emitter) emitFlowTask(t *ps.Task, file string) {
 	e.lineK[e.line] = t.K
 	e.w("%s", e.argFn(fnx))
 	if t.Pred {
-		e.w(",\n\t\t\tcff.Predicate(%s)", e.arg(e.predFn(t)))
+		// cff records the position of the cff.Predicate( call for the predicate
+		// (the `// file:line:col` comment above `predN := new(` in the generated code).
+		e.w(",\n\t\t\tcff.Predicate(")
+		e.predLK[e.line] = t.K
+		e.w("%s)", e.arg(e.predFn(t)))
 	}
 	if t.FB {
 		var as []string
